@@ -39,6 +39,9 @@ pub fn from_string_inner(ast: &DeriveInput) -> syn::Result<TokenStream> {
         _ => return Err(missing_parse_err_attr_error()),
     };
     let mut phf_exact_match_arms = Vec::new();
+    // `phf_map!` rejects duplicate keys. The first arm to claim a key wins, which is what the
+    // equivalent `match` does.
+    let mut phf_keys = ::std::collections::HashSet::new();
     let mut standard_match_arms = Vec::new();
     for variant in variants {
         let ident = &variant.ident;
@@ -120,7 +123,9 @@ pub fn from_string_inner(ast: &DeriveInput) -> syn::Result<TokenStream> {
         // If we don't have any custom variants, add the default serialized name.
         for serialization in variant_properties.get_serializations(type_properties.case_style) {
             if type_properties.use_phf {
-                phf_exact_match_arms.push(quote! { #serialization => #name::#ident #params, });
+                if phf_keys.insert(serialization.value()) {
+                    phf_exact_match_arms.push(quote! { #serialization => #name::#ident #params, });
+                }
 
                 if is_ascii_case_insensitive {
                     // Store the lowercase and UPPERCASE variants in the phf map to capture
@@ -130,8 +135,12 @@ pub fn from_string_inner(ast: &DeriveInput) -> syn::Result<TokenStream> {
                         syn::LitStr::new(&ser_string.to_ascii_lowercase(), serialization.span());
                     let upper =
                         syn::LitStr::new(&ser_string.to_ascii_uppercase(), serialization.span());
-                    phf_exact_match_arms.push(quote! { #lower => #name::#ident #params, });
-                    phf_exact_match_arms.push(quote! { #upper => #name::#ident #params, });
+                    if phf_keys.insert(lower.value()) {
+                        phf_exact_match_arms.push(quote! { #lower => #name::#ident #params, });
+                    }
+                    if phf_keys.insert(upper.value()) {
+                        phf_exact_match_arms.push(quote! { #upper => #name::#ident #params, });
+                    }
                     standard_match_arms.push(quote! { s if s.eq_ignore_ascii_case(#serialization) => #name::#ident #params, });
                 }
             } else {
